@@ -877,4 +877,299 @@ theorem Unique.update {ac : ACtx} {c : Coll} {q u : Doc} {sort : Option Doc} {sk
     have hnews : DocsOk (news.map (·.1)) := fun x hx => hok' x ((f2 x).mpr (.inr hx))
     exact (foldIdx_add_unique c1 u1 (fun x hx => hok x hx.1) hnews hadd).congr f2
 
+/-! ### `Coll.upsert` is an insert of the computed document -/
+
+theorem upsert_spec {ac : ACtx} {c c' : Coll} {q : Doc} {repl update : Option Doc} {filters : List Doc}
+    {nu nu' : Nu} {sd : SDoc} (h : c.upsert ac q repl update filters nu = .ok (c', sd, nu')) :
+    ∃ doc, c.insert ac.sch doc nu = .ok (c', sd, nu') := by
+  unfold Coll.upsert at h
+  split at h
+  · cases h
+  · simp only at h
+    split at h
+    · cases h
+    · split at h
+      · cases h
+      · rename_i doc _
+        exact ⟨doc, h⟩
+
+/-! ### `Index.build`, `newIndex`, `Coll.createIndex`, `Coll.dropIndex` -/
+
+theorem build_shape : ∀ {list : List SDoc} {i i' : Index} {b : Bool},
+    i.build sch list = .ok (i', b) → i'.config = i.config ∧ i'.columns = i.columns
+  | [], i, i', b, h => by
+    simp only [Index.build, Except.ok.injEq, Prod.mk.injEq] at h; rw [← h.1]; exact ⟨rfl, rfl⟩
+  | sd :: r, i, i', b, h => by
+    rw [Index.build] at h
+    split at h
+    · cases h
+    · rename_i i1 h1
+      simp only [Except.ok.injEq, Prod.mk.injEq] at h
+      rw [← h.1]; exact add_shape h1
+    · rename_i i1 h1
+      obtain ⟨a1, a2⟩ := add_shape h1
+      obtain ⟨b1, b2⟩ := build_shape h
+      exact ⟨b1.trans a1, b2.trans a2⟩
+
+theorem build_coherent : ∀ {list : List SDoc} {S : SDoc → Prop} {i i' : Index},
+    IndexCoherent sch S i → i.build sch list = .ok (i', true) →
+    IndexCoherent sch (fun x => S x ∨ x ∈ list) i'
+  | [], S, i, i', hc, h => by
+    simp only [Index.build, Except.ok.injEq, Prod.mk.injEq, and_true] at h; subst h
+    exact hc.congr (fun x => by simp)
+  | sd :: r, S, i, i', hc, h => by
+    rw [Index.build] at h
+    split at h
+    · cases h
+    · simp at h
+    · rename_i i1 h1
+      exact (build_coherent (hc.add h1) h).congr (fun x => by simp only [List.mem_cons, or_assoc])
+
+theorem build_unique : ∀ {list : List SDoc} {S : SDoc → Prop} {i i' : Index},
+    IndexCoherent sch S i → IndexUnique sch S i → (∀ x, S x → DocOk x.doc) → DocsOk list →
+    i.build sch list = .ok (i', true) → IndexUnique sch (fun x => S x ∨ x ∈ list) i'
+  | [], S, i, i', _, hu, _, _, h => by
+    simp only [Index.build, Except.ok.injEq, Prod.mk.injEq, and_true] at h; subst h
+    exact hu.mono (fun x hx => by simpa using hx) rfl rfl
+  | sd :: r, S, i, i', hc, hu, hok, hl, h => by
+    rw [Index.build] at h
+    split at h
+    · cases h
+    · simp at h
+    · rename_i i1 h1
+      have hsd : DocOk sd.doc := hl sd (by simp)
+      have := build_unique (hc.add h1) (hu.add hc hok hsd h1)
+        (fun x hx => by
+          rcases hx with hx | rfl
+          · exact hok x hx
+          · exact hsd)
+        (fun x hx => hl x (List.mem_cons_of_mem _ hx)) h
+      exact this.mono (fun x hx => by simpa only [List.mem_cons, or_assoc] using hx) rfl rfl
+
+theorem newIndex_spec {config : IndexConfig} {index : Index} (h : newIndex config = .ok index) :
+    index.config = config ∧ columns config.key = .ok index.columns ∧ index.entries = [] := by
+  unfold newIndex at h
+  split at h
+  · cases h
+  · split at h
+    · cases h
+    · rename_i cols hc
+      split at h
+      · cases h
+      · simp only [Except.ok.injEq] at h; subst h; exact ⟨rfl, hc, rfl⟩
+
+theorem newIndex_coherent {config : IndexConfig} {index : Index} (h : newIndex config = .ok index) :
+    IndexCoherent sch (fun _ => False) index := by
+  obtain ⟨h1, h2, h3⟩ := newIndex_spec h
+  exact ⟨(by rw [h1]; exact h2), fun _ hx => hx.elim, fun k id hm => (by rw [h3] at hm; cases hm),
+    fun _ hx => hx.elim, (by rw [h3]; exact List.Pairwise.nil)⟩
+
+theorem assocSet_fresh {α} {l : List (String × α)} {k : String} {v : α}
+    (h : l.any (·.1 == k) = false) : assocSet l k v = l ++ [(k, v)] := by
+  unfold assocSet; rw [h]; rfl
+
+/-- the successful outcomes of `Coll.createIndex` -/
+theorem createIndex_spec {c c' : Coll} {name name' : String} {config : IndexConfig}
+    (h : c.createIndex sch name config = .ok (c', name')) :
+    (if name = "" then config.name = .ok name' else name' = name) ∧
+    ((c' = c ∧ ∃ i, c.indexes.lookup name' = some i ∧ config.equal i.config = true) ∨
+     (∃ index index', newIndex config = .ok index ∧ index.build sch c.docs = .ok (index', true) ∧
+        c' = { c with indexes := c.indexes ++ [(name', index')] } ∧
+        c.indexes.any (·.1 == name') = false ∧
+        c.indexes.any (fun p => V.cmp (.doc config.key) (.doc p.2.config.key) == .eq) = false)) := by
+  unfold Coll.createIndex at h
+  simp only at h
+  split at h
+  · cases h
+  · rename_i nm hnm
+    have hname : (if name = "" then config.name = .ok nm else nm = name) := by
+      split at hnm
+      · rename_i hn; simp only [beq_iff_eq] at hn; simp only [hn, ↓reduceIte]; exact hnm
+      · rename_i hn; simp only [beq_iff_eq] at hn; simp only [hn, ↓reduceIte]
+        simp only [Except.ok.injEq] at hnm; exact hnm.symm
+    have hrest : (if (c.indexes.any fun x => (V.doc config.key).cmp (V.doc x.snd.config.key) == Ordering.eq) = true then
+          (Except.error Err.err : Res (Coll × String))
+        else
+          if (c.indexes.any fun x => x.fst == nm) = true then Except.error Err.err
+          else
+            match newIndex config with
+            | Except.error e => Except.error e
+            | Except.ok index =>
+              match Index.build sch index c.docs with
+              | Except.error e => Except.error e
+              | Except.ok (_, false) => Except.error Err.dup
+              | Except.ok (index', true) => Except.ok ({ docs := c.docs, indexes := assocSet c.indexes nm index' }, nm)) =
+          Except.ok (c', name') ∨ (c' = c ∧ name' = nm ∧ ∃ i, c.indexes.lookup nm = some i ∧ config.equal i.config = true) := by
+      cases hl : c.indexes.lookup nm with
+      | none =>
+        simp only [hl, Bool.false_eq_true, ↓reduceIte] at h
+        exact .inl h
+      | some i =>
+        simp only [hl] at h
+        split at h
+        · rename_i he
+          simp only [Except.ok.injEq, Prod.mk.injEq] at h
+          exact .inr ⟨h.1.symm, h.2.symm, i, rfl, he⟩
+        · exact .inl h
+    clear h
+    rcases hrest with h | ⟨rfl, rfl, hi⟩
+    rotate_left
+    · exact ⟨hname, .inl ⟨rfl, hi⟩⟩
+    · 
+      split at h
+      · cases h
+      · rename_i hkey
+        split at h
+        · cases h
+        · rename_i hnone
+          split at h
+          · cases h
+          · rename_i index hidx
+            split at h
+            · cases h
+            · cases h
+            · rename_i index' hb
+              simp only [Except.ok.injEq, Prod.mk.injEq] at h
+              obtain ⟨rfl, rfl⟩ := h
+              have hnone' : c.indexes.any (·.1 == nm) = false := Bool.eq_false_iff.mpr hnone
+              refine ⟨hname, .inr ⟨index, index', hidx, hb, ?_, hnone', ?_⟩⟩
+              · rw [assocSet_fresh hnone']
+              · simpa using hkey
+
+theorem Coherent.createIndex {c c' : Coll} {name name' : String} {config : IndexConfig}
+    (hc : Coherent sch c) (h : c.createIndex sch name config = .ok (c', name')) :
+    Coherent sch c' ∧ c'.docs = c.docs := by
+  rcases (createIndex_spec h).2 with ⟨rfl, _⟩ | ⟨index, index', hn, hb, rfl, _, _⟩
+  · exact ⟨hc, rfl⟩
+  · refine ⟨⟨hc.1, ?_⟩, rfl⟩
+    intro n i hm
+    rcases List.mem_append.mp hm with hm | hm
+    · exact hc.2 n i hm
+    · simp only [List.mem_singleton, Prod.mk.injEq] at hm
+      obtain ⟨_, rfl⟩ := hm
+      exact (build_coherent (newIndex_coherent hn) hb).congr (fun x => by simp)
+
+theorem Unique.createIndex {c c' : Coll} {name name' : String} {config : IndexConfig}
+    (hu : Unique sch c) (hok : DocsOk c.docs)
+    (h : c.createIndex sch name config = .ok (c', name')) : Unique sch c' := by
+  rcases (createIndex_spec h).2 with ⟨rfl, _⟩ | ⟨index, index', hn, hb, rfl, _, _⟩
+  · exact hu
+  · intro n i hm
+    rcases List.mem_append.mp hm with hm | hm
+    · exact hu n i hm
+    · simp only [List.mem_singleton, Prod.mk.injEq] at hm
+      obtain ⟨_, rfl⟩ := hm
+      have u0 : IndexUnique sch (fun _ => False) index := fun _ _ _ hx => hx.elim
+      exact (build_unique (newIndex_coherent hn) u0 (fun _ hx => hx.elim) hok hb).mono
+        (fun x hx => .inr hx) rfl rfl
+
+/-- the successful outcomes of `Coll.dropIndex`: a sub-list of the indexes that keeps `_id_` -/
+theorem dropIndex_spec {c c' : Coll} {name : String} {dropped : List String}
+    (h : c.dropIndex name = .ok (c', dropped)) :
+    c'.docs = c.docs ∧ name ≠ "_id_" ∧ ∃ p : String × Index → Bool, c'.indexes = c.indexes.filter p ∧
+      (∀ e, e.1 = "_id_" → p e = true) ∧
+      (name ≠ "" → p = (fun e => e.1 != name) ∧ c.indexes.any (·.1 == name) = true ∧ dropped = [name]) ∧
+      (name = "" → p = (fun e => e.1 == "_id_")) := by
+  unfold Coll.dropIndex at h
+  split at h
+  · rename_i hne
+    have hne' : name ≠ "" := by simpa using hne
+    split at h
+    · cases h
+    · rename_i hid
+      have hid' : name ≠ "_id_" := by simpa using hid
+      split at h
+      · cases h
+      · rename_i hex
+        simp only [Except.ok.injEq, Prod.mk.injEq] at h
+        obtain ⟨rfl, rfl⟩ := h
+        refine ⟨rfl, hid', (fun e => e.1 != name), rfl, ?_, ?_, ?_⟩
+        · intro e he; simp only [he, bne_iff_ne, ne_eq]; exact fun e' => hid' e'.symm
+        · intro _; exact ⟨rfl, by simpa using hex, rfl⟩
+        · intro e; exact absurd e hne'
+  · rename_i hne
+    have hne' : name = "" := by simpa using hne
+    simp only [Except.ok.injEq, Prod.mk.injEq] at h
+    obtain ⟨rfl, rfl⟩ := h
+    refine ⟨rfl, by rw [hne']; decide, (fun e => e.1 == "_id_"), rfl, ?_, ?_, ?_⟩
+    · intro e he; simp [he]
+    · intro e; exact absurd hne' e
+    · intro _; rfl
+
+theorem Coherent.dropIndex {c c' : Coll} {name : String} {dropped : List String}
+    (hc : Coherent sch c) (h : c.dropIndex name = .ok (c', dropped)) :
+    Coherent sch c' ∧ c'.docs = c.docs := by
+  obtain ⟨hd, _, p, hi, _⟩ := dropIndex_spec h
+  refine ⟨⟨by rw [hd]; exact hc.1, ?_⟩, hd⟩
+  intro n i hm
+  rw [hi] at hm
+  rw [hd]
+  exact hc.2 n i (List.mem_filter.mp hm).1
+
+theorem Unique.dropIndex {c c' : Coll} {name : String} {dropped : List String}
+    (hu : Unique sch c) (h : c.dropIndex name = .ok (c', dropped)) : Unique sch c' := by
+  obtain ⟨hd, _, p, hi, _⟩ := dropIndex_spec h
+  intro n i hm
+  rw [hi] at hm
+  rw [hd]
+  exact hu n i (List.mem_filter.mp hm).1
+
+/-! ### Index names and definitions are untouched by document writes -/
+
+theorem idIndexPresent_iff {c : Coll} : IdIndexPresent c ↔ ("_id_", idIndexConfig) ∈ shape c.indexes := by
+  unfold IdIndexPresent shape
+  rw [List.mem_map]
+  constructor
+  · rintro ⟨i, hm, hc⟩; exact ⟨("_id_", i), hm, by rw [hc]⟩
+  · rintro ⟨⟨n, i⟩, hm, he⟩
+    simp only [Prod.mk.injEq] at he
+    obtain ⟨rfl, hc⟩ := he
+    exact ⟨i, hm, hc⟩
+
+theorem insert_shape {c c' : Coll} {d : Doc} {nu nu' : Nu} {sd : SDoc}
+    (h : c.insert sch d nu = .ok (c', sd, nu')) : shape c'.indexes = shape c.indexes := by
+  obtain ⟨_, _, _, _, _, idx', ha, rfl⟩ := insert_spec h
+  exact addToIndexes_shape ha
+
+theorem upsert_shape {ac : ACtx} {c c' : Coll} {q : Doc} {repl update : Option Doc} {filters : List Doc}
+    {nu nu' : Nu} {sd : SDoc} (h : c.upsert ac q repl update filters nu = .ok (c', sd, nu')) :
+    shape c'.indexes = shape c.indexes := by
+  obtain ⟨doc, h⟩ := upsert_spec h
+  exact insert_shape h
+
+theorem delete_shape {c c' : Coll} {q : Doc} {sort : Option Doc} {skip limit : Int} {list : List SDoc}
+    (h : c.delete sch q sort skip limit = .ok (c', list)) : shape c'.indexes = shape c.indexes := by
+  obtain ⟨_, idx', hf, rfl⟩ := delete_spec h
+  exact foldIdx_remove_shape hf
+
+theorem replace_shape {c : Coll} {q repl : Doc} {sort : Option Doc} {nu nu' : Nu} {res : CResult}
+    (h : c.replace sch q repl sort nu = .ok (res, nu')) : shape res.coll.indexes = shape c.indexes := by
+  rcases replace_spec h with ⟨h1, _⟩ | ⟨old, repl', idx', _, _, hupd, hcoll, _⟩
+  · rw [h1]
+  · rw [hcoll]; exact replace_upd_shape hupd
+
+theorem update_shape {ac : ACtx} {c : Coll} {q u : Doc} {sort : Option Doc} {skip limit : Int}
+    {filters : List Doc} {nu nu' : Nu} {res : CResult}
+    (h : c.update ac q u sort skip limit filters nu = .ok (res, nu')) :
+    shape res.coll.indexes = shape c.indexes := by
+  rcases update_spec h with ⟨h1, _⟩ | ⟨list, news, idx1, idx2, _, _, hrem, hadd, hcoll, _⟩
+  · rw [h1]
+  · rw [hcoll]
+    exact (foldIdx_add_shape hadd).trans (foldIdx_remove_shape hrem)
+
+theorem createIndex_keeps {c c' : Coll} {name name' : String} {config : IndexConfig}
+    (h : c.createIndex sch name config = .ok (c', name')) :
+    ∀ e ∈ c.indexes, e ∈ c'.indexes := by
+  rcases (createIndex_spec h).2 with ⟨rfl, _⟩ | ⟨_, _, _, _, rfl, _, _⟩
+  · exact fun e he => he
+  · exact fun e he => List.mem_append_left _ he
+
+theorem dropIndex_keeps_id {c c' : Coll} {name : String} {dropped : List String}
+    (h : c.dropIndex name = .ok (c', dropped)) :
+    ∀ i, ("_id_", i) ∈ c.indexes → ("_id_", i) ∈ c'.indexes := by
+  obtain ⟨_, _, p, hi, hp, _⟩ := dropIndex_spec h
+  intro i hm
+  rw [hi]
+  exact List.mem_filter.mpr ⟨hm, hp _ rfl⟩
+
 end Lungo
